@@ -1,2 +1,3 @@
 import Dalek.Props.C05.Backends
 import Dalek.Props.C05.Refinement
+import Dalek.Props.C05.Vector
